@@ -5,8 +5,8 @@
         (independent of M). *)
 From Coq Require Import List ZArith NArith Bool.
 From JL Require Import Base.Json Base.Lits Base.F64 Base.Str Base.Dec2Flt Base.Flt2Dec Base.JsonText Base.Monad.
-From JL Require Import Model.JsOp Model.Ops Model.Table Gen.OpTable Model.Eval.
-From JL Require Import Spec.Specs Spec.SpecApply.
+From JL Require Import Model.JsOp Model.Ops Model.Table Gen.OpTable Model.Eval Model.Boundary.
+From JL Require Import Spec.Specs Spec.RefEval Spec.SpecApply.
 Import ListNotations.
 
 Inductive helper_name :=
@@ -26,14 +26,19 @@ Inductive obs :=
 | ObsPanic | ObsAbort | ObsTimeout
 | ObsHelper (r : hres)
 | ObsPair (a b : obs)
-| ObsMulti (l : list (list obs1)).
+| ObsMulti (l : list (list obs1))
+| ObsCli (lines : list str) (code : N)           (* stdout lines and exit status of the jsonlogic command *)
+| ObsPy (o : py_outcome)                         (* what the Python call did *)
+| ObsBad.                                        (* the runner itself saw an inconsistency *)
 
 Inductive work :=
 | WApply (rule data : value)
 | WHelper (h : helper_name) (args : list value)
 | WPair (a b : work)
 | WHistory (pool : list (value * value)) (iso : list obs1) (seq : list nat)
-| WThreads (pool : list (value * value)) (iso : list obs1) (threads : nat).
+| WThreads (pool : list (value * value)) (iso : list obs1) (threads : nat)
+| WCli (form : data_form) (logic data : parsed_text)
+| WPy (value : parsed_text) (data : option parsed_text).
 
 Record case := mk_case { c_id : N; c_work : work; c_obs : obs }.
 
@@ -96,6 +101,8 @@ Fixpoint model_obs (w : work) : obs :=
   | WPair a b => ObsPair (model_obs a) (model_obs b)
   | WHistory pool _ seq => ObsMulti [map (model_call pool) seq]
   | WThreads pool _ n => ObsMulti (repeat (map (model_call pool) (seq 0 (length pool))) n)
+  | WCli form logic data => let '(lines, code) := cli_form form logic data in ObsCli lines code
+  | WPy value data => ObsPy (py_apply value data)
   end.
 
 (** ** Comparing observations *)
@@ -151,6 +158,13 @@ Fixpoint obs_eqb (kinds : bool) (m o : obs) : bool :=
   | ObsHelper r, ObsHelper r' => hres_eqb r r'
   | ObsPair a b, ObsPair a' b' => obs_eqb kinds a a' && obs_eqb kinds b b'
   | ObsMulti l, ObsMulti l' => list_eqb (list_eqb obs1_eqb) l l'
+  | ObsCli l c, ObsCli l' c' => list_eqb str_eqb l l' && N.eqb c c'
+  | ObsPy a, ObsPy b =>
+      match a, b with
+      | PyReturn x, PyReturn y => str_eqb x y
+      | PyValueError, PyValueError => true
+      | _, _ => false
+      end
   | _, _ => false
   end.
 
@@ -159,6 +173,9 @@ Fixpoint any_crash (o : obs) : bool :=
   | ObsPanic | ObsAbort | ObsTimeout => true
   | ObsPair a b => any_crash a || any_crash b
   | ObsMulti l => existsb (existsb (fun x => match x with O1Crash => true | _ => false end)) l
+  | ObsCli _ c => negb (N.eqb c 0 || N.eqb c 1)          (* 101 = panic, 134 = abort, ... *)
+  | ObsPy PyOtherException => true
+  | ObsBad => true
   | _ => false
   end.
 
@@ -217,8 +234,31 @@ Definition spec_ok (p : prop_id) (c : case) : bool :=
       | H_to_string, [a], HStr s => str_eqb s (to_string_spec a)
       | _, _, _ => true
       end
+  | WCli _ logic data, ObsCli lines code =>
+      match logic, data with
+      | Some r, Some d =>
+          match ref_eval r d with
+          | (t, Ok v) => N.eqb code 0 && list_eqb str_eqb lines (map json_text t ++ [json_text v])
+          | (_, Err _) => negb (N.eqb code 0)
+          | _ => false
+          end
+      | _, _ => negb (N.eqb code 0) && match lines with [] => true | _ => false end
+      end
+  | WPy value data, ObsPy o =>
+      match value, (match data with Some d => d | None => Some Null end) with
+      | Some r, Some d =>
+          match ref_eval r d, o with
+          | (_, Ok v), PyReturn text => str_eqb text (json_text v)
+          | (_, Err _), PyValueError => true
+          | _, _ => false
+          end
+      | _, _ => match o with PyValueError => true | _ => false end
+      end
+  | (WCli _ _ _ | WPy _ _), _ => false
   | _, _ => true
   end.
+
+Definition wf_opt (o : parsed_text) : bool := match o with Some v => wfb v | None => true end.
 
 Fixpoint wf_work (w : work) : bool :=
   match w with
@@ -226,6 +266,8 @@ Fixpoint wf_work (w : work) : bool :=
   | WHelper _ args => forallb wfb args
   | WPair a b => wf_work a && wf_work b
   | WHistory pool _ _ | WThreads pool _ _ => forallb (fun rd => wfb (fst rd) && wfb (snd rd)) pool
+  | WCli _ logic data => wf_opt logic && wf_opt data
+  | WPy value data => wf_opt value && match data with Some d => wf_opt d | None => true end
   end.
 
 (** (ids failing corr_ok, ids failing spec_ok, ids of ill-formed inputs, number of cases) *)
